@@ -193,6 +193,21 @@ CLAIMED = {
         "Trusted: Lean kernel, standard axioms, hand model; the tie carries the weight for this property.",
         "Lean 4 proof about a reference-free model + correspondence under in-place edits + argument-mutation monitor",
         "DESIGN.md §5 C10"),
+    "C08": (
+        "Machine-checked Lean 4 proof over an ordered field, for every force array, about a hand model of "
+        "compute_poc, the approach clipping and all six estimators (threshold, Frechet, gradient incl. the moving "
+        "average with reflect boundary and np.gradient; the three fit-based estimators with the optimiser as a "
+        "parameter): every estimate is unchanged under force -> a*force + b (a > 0), is NaN or a valid index, "
+        "degenerate data (empty / constant clipped part) give NaN, and compute_poc then returns the centre of the "
+        "clipped data - always a valid index of a non-empty array. Tied by running the model at exact rationals on "
+        "integer-valued arrays and by recording the arrays handed to lmfit.minimize. Partial: binary64 rounding for "
+        "factors that are not powers of two and for offsets ('within one sample'), the determinism of the optimiser "
+        "and the stated accuracy fractions on noise-free model curves are explored by the oracle, not proved.",
+        "Trusted: Lean kernel, standard axioms, hand model (exact sampled correspondence on integer-valued arrays), "
+        "lmfit/Nelder-Mead as an uninterpreted deterministic function, numpy argmax/argmin first-index semantics.",
+        "Lean 4 proof over an ordered field (optimiser as parameter) + exact-rational correspondence + recorded "
+        "optimiser inputs + property oracle on grids, degenerate arrays and recorded curves",
+        "DESIGN.md §5 C08"),
     "C15": (
         "Machine-checked Lean 4 proof over an ordered field, for every matrix shape and every NaN/+-inf pattern, "
         "about a hand model of load_training_set (after the files were read) and compute_sample_weight: with "
